@@ -424,6 +424,16 @@ class Check:
         return 1
 
 
+def scan_cloexec(chk, trace, where, prop_note):
+    """every descriptor the crate creates or receives must be close-on-exec (the shim records the flag of each creating call): a
+    descriptor without it is inherited by whatever the process execs and keeps the object behind it alive there"""
+    bad = [r for r in trace if r["call"] in ("socketpair", "socket", "accept", "dup", "install", "shm_open", "epoll_create") and r.get("cloexec") == 0]
+    if bad:
+        chk.failing_input("%s: a descriptor was created without close-on-exec (%s); %s" % (where, {k: bad[0].get(k) for k in ("call", "fd", "a", "b")}, prop_note),
+                          {"calls": bad[:4]}, key="cloexec:%s:%s" % (where, bad[0]["call"]))
+    return len(bad)
+
+
 def proof_stage(chk, prop, extra_targets=()):
     """translate, build the property's cone, audit.  Records coverage; returns True if everything checks."""
     with Lock("coq"):
